@@ -98,7 +98,7 @@ Definition row_cols (r : note_row) (c : col) : sval :=
   | C_t_expiry => ov (r_texpiry r)
   | C_t_minobs => VInt (r_tminobs r)
   | C_scan_max_priority => ov (r_prio r)
-  | C_tx_mined | C_tx_expiry | C_tx_minobs => VNull
+  | _ => VNull
   end.
 
 Definition spender_cols (s : spender) (c : col) : sval :=
@@ -122,11 +122,11 @@ Definition q_pv (q : qparams) (p : param) : sval :=
   | P_tip_unscanned => bv (q_tip_unscanned q)
   | P_scanned_priority => VInt SCANNED_PRIORITY
   | P_target_height => VInt (q_target q)
-  | P_target_value | P_chain_tip | P_owner => VNull
+  | _ => VNull
   end.
 
 Definition q_lv (q : qparams) (l : lparam) : list Z :=
-  match l with L_exclude => q_exclude q | L_overridable_owners => q_owners q end.
+  match l with L_exclude => q_exclude q | L_overridable_owners => q_owners q | L_addresses => [] end.
 
 (** [rn.id IN (spent_notes_clause)]: some recorded spender satisfies the regenerated
     tx_unexpired_condition at the target height. *)
@@ -339,8 +339,8 @@ Definition change_count (f : cpool -> bool) (cs : list (cpool * Z)) : nat := len
 
 Record step := Step {
   s_inputs : list (pool * Z);   (* shielded inputs *)
-  s_in_value : Z;               (* their total value *)
-  s_tin : Z;                    (* number of transparent inputs (always 0 in this model) *)
+  s_in_value : Z;               (* total input value *)
+  s_tins : list Z;              (* transparent inputs (ids of transparent_received_outputs rows) *)
   s_pay : Z;                    (* request total *)
   s_changes : list (cpool * Z); (* proposed change outputs *)
   s_fee : Z;
@@ -371,7 +371,7 @@ Definition step_from_parts (ironwood_active : bool) (inputs : list note_row) (an
   let orchard_change := change_total (change_in Orchard cs) in
   if ironwood_active && (0 <? orchard_change) && (orchard_in <=? orchard_change) then Err EProposal
   else if input_total =? output_total
-  then Ok (Step (map (fun r => (r_pool r, r_id r)) inputs) input_total 0 pay cs fee (Some anchor))
+  then Ok (Step (map (fun r => (r_pool r, r_id r)) inputs) input_total [] pay cs fee (Some anchor))
   else Err EBalance.
 
 Definition ref_eqb (a b : pool * Z) : bool := pool_eqb (fst a) (fst b) && (snd a =? snd b).
